@@ -142,9 +142,19 @@ def build_harness(config="default"):
     shutil.copy(os.path.join(REPO, "Cargo.lock"), os.path.join(bdir, "Cargo.lock"))
     feats = {"default": [], "nostd": ["--no-default-features"],
              "serialize": ["--features", "serialize"]}[config]
-    env = dict(ENV, RUSTFLAGS="--cfg " + GUARD)
+    env = dict(ENV, RUSTFLAGS="--cfg " + GUARD, VERIF_GEN_DIR=os.path.join(COQ, "gen"))
     rc, out = sh(["cargo", "build", "--release", "--offline", "--target-dir", tdir] + feats, cwd=bdir, env=env, timeout=1800)
     return rc == 0, out, binp
+
+def crate_check(tag, feats, expect_fail=None):
+    """cargo check of the crate itself (not the harness) with a feature set; returns (ok_as_expected, detail)"""
+    tdir = os.path.join(CACHE, "target-crate-" + tag)
+    cmd = ["cargo", "check", "--offline", "--locked", "--lib", "--manifest-path", os.path.join(REPO, "Cargo.toml"), "--target-dir", tdir] + feats
+    rc, out = sh(cmd, env=dict(ENV, RUSTFLAGS="--cfg " + GUARD), timeout=1800)
+    errs = "\n".join(l for l in out.split("\n") if l.startswith("error"))[:800]
+    if expect_fail is None:
+        return rc == 0, dict(cmd=" ".join(cmd), rc=rc, errors=errs)
+    return (rc != 0 and expect_fail in out), dict(cmd=" ".join(cmd), rc=rc, errors=errs, expected_error=expect_fail)
 
 def dump_registry(binp):
     """T3b: regenerate gen/CipherDump.v from the implementation built from the current tree"""
